@@ -305,13 +305,13 @@ func buildLead(major, minor byte, name string) []byte {
 }
 
 type rpmPkg struct {
-	Major, Minor                byte
+	Major, Minor                 byte
 	Name, Version, Release, Arch string
-	RPMVersion                  *string
-	MD5                         []byte
-	SHA1, SHA256                *string
-	Sigs                        [4]*sigSpec // DSA(267) RSA(268) GPG(1005) PGP(1002)
-	Payload                     []byte
+	RPMVersion                   *string
+	MD5                          []byte
+	SHA1, SHA256                 *string
+	Sigs                         [4]*sigSpec // DSA(267) RSA(268) GPG(1005) PGP(1002)
+	Payload                      []byte
 }
 
 var sigTags = [4]uint32{267, 268, 1005, 1002}
